@@ -176,6 +176,23 @@ func staticC18(a *App, m *Mon, seed int64, nRandom int) {
 			}
 			seen[hexs(id)] = key
 			made = append(made, gen{id, want, i})
+			// the caller's hash may sit inside a larger buffer (a transaction's bytes): what follows
+			// the hash there must not be written
+			buf := make([]byte, len(want)+16)
+			copy(buf, want)
+			for k := len(want); k < len(buf); k++ {
+				buf[k] = 0xA5
+			}
+			id2 := types.GenerateRequestContextID(buf[:len(want)], i)
+			for k := len(want); k < len(buf); k++ {
+				if buf[k] != 0xA5 {
+					m.fail(sc, "C18", "context-id", "aliased-buffer", "building a context ID wrote into the caller's buffer behind the transaction hash")
+					break
+				}
+			}
+			if !bytes.Equal(id2, id) {
+				m.fail(sc, "C18", "context-id", "round-trip", "the same inputs gave two different context IDs depending on the caller's buffer")
+			}
 		}
 	}
 	// IDs generated earlier must still decode to their inputs after later calls
@@ -228,6 +245,34 @@ func staticC18(a *App, m *Mon, seed int64, nRandom int) {
 					// hex form used by clients
 					if back, err := types.ConvertRequestID(id.String()); err != nil || !bytes.Equal(back, id) {
 						m.fail(sc, "C18", "request-id", "hex-form", "request ID does not survive its hex string form")
+					}
+					// a client that splits an ID and builds the ID of a sibling request from the context
+					// part it got back holds a slice with room behind it; so does one that keeps the
+					// context ID inside a larger buffer. Building the sibling must not touch either.
+					if err == nil && len(gc) == len(want) {
+						before := append([]byte(nil), id...)
+						sib := types.GenerateRequestID(gc, n+1, h, i)
+						sc2, sn, sh, si, serr := types.SplitRequestID(sib)
+						if !bytes.Equal(id, before) {
+							m.fail(sc, "C18", "request-id", "aliased-buffer", "building the ID of (%x..,%d,%d,%d) from the context part of an earlier ID rewrote that earlier ID", want[:4], n+1, h, i)
+						} else if serr != nil || !bytes.Equal(sc2, want) || sn != n+1 || sh != h || si != i {
+							m.fail(sc, "C18", "request-id", "round-trip", "request ID built from a split context ID decodes to (%x..,%d,%d,%d,%v), want (%x..,%d,%d,%d)", []byte(sc2)[:4], sn, sh, si, serr, want[:4], n+1, h, i)
+						}
+						buf := make([]byte, len(want)+32)
+						copy(buf, want)
+						for k := len(want); k < len(buf); k++ {
+							buf[k] = 0xA5
+						}
+						id2 := types.GenerateRequestID(buf[:len(want)], n, h, i)
+						for k := len(want); k < len(buf); k++ {
+							if buf[k] != 0xA5 {
+								m.fail(sc, "C18", "request-id", "aliased-buffer", "building a request ID wrote into the caller's buffer behind the context ID")
+								break
+							}
+						}
+						if !bytes.Equal(id2, id) {
+							m.fail(sc, "C18", "request-id", "round-trip", "the same inputs gave two different request IDs depending on the caller's buffer")
+						}
 					}
 					if len(rmade) < 400 {
 						rmade = append(rmade, rgen{id, want, n, h, i})
